@@ -264,16 +264,20 @@ def comparator_sites():
 def _shapes(tier):
     if tier == 'quick':
         one = [(1,), (2,), (1, 1), (1, 2), (2, 1), (1, 1, 1), (1, 2, 1), (2, 1, 1)]
+        # components of three and four digits (x.100, year-like values) and a fourth component: few shapes, they only meet shapes of similar length
+        extra = [(1, 3), (2, 3), (1, 4), (4, 3), (1, 1, 1, 1), (2, 1, 1, 1), (1, 2, 1, 1)]
+        return one, extra
     else:
         one = [(1,), (2,), (4,), (1, 1), (1, 2), (2, 1), (2, 2), (1, 3), (3, 1), (4, 2), (1, 1, 1), (1, 2, 1), (2, 1, 1), (1, 1, 2),
                (2, 2, 1), (1, 2, 2), (1, 1, 1, 1), (1, 2, 1, 1), (2, 1, 1, 1), (1, 1, 2, 1), (4, 2, 1)]
-    return one
+    return one, []
 
 
 def tasks(tier):
     T = []
-    shapes = _shapes(tier)
+    shapes, extra = _shapes(tier)
     pairs = [(a, b) for a in shapes for b in shapes if len(a) == len(b) or abs(len(a) - len(b)) == 1]
+    pairs += [(a, b) for a in extra for b in extra + [(1, 2), (2, 1), (1, 2, 1)] if len(a) == len(b)] + [((1, 2), (1, 3)), ((2, 1), (1, 3)), ((1, 2, 1), (1, 2, 1, 1)), ((1, 1, 1, 1), (2, 1))]
     prods = list(PRODUCTS)
     for i, (a, b) in enumerate(pairs):
         if tier == 'quick':
